@@ -19,6 +19,9 @@ from .common import wmod, newworld
 
 logging.disable(logging.CRITICAL)
 
+if os.environ.get('ZOPE_INTERFACE_LOG_CHANGED_IRO'):
+    import logging
+    logging.getLogger('zope.interface.ro').setLevel(logging.CRITICAL)    # keep the reports off stderr
 MODE = ('strict' if os.environ.get('ZOPE_INTERFACE_STRICT_IRO') else
         'legacy' if os.environ.get('ZOPE_INTERFACE_USE_LEGACY_IRO') else 'default')
 
@@ -282,7 +285,9 @@ def replay(case):
 
 ENVS = {'default': None,
         'strict': {'ZOPE_INTERFACE_STRICT_IRO': '1'},
-        'legacy': {'ZOPE_INTERFACE_USE_LEGACY_IRO': '1'}}
+        'legacy': {'ZOPE_INTERFACE_USE_LEGACY_IRO': '1'},
+        # reporting orders that differ from the legacy one must not change any order
+        'log': {'ZOPE_INTERFACE_LOG_CHANGED_IRO': '1'}}
 
 
 def run(ctx):
@@ -305,10 +310,14 @@ def run(ctx):
                  for ds in itertools.product(dopts, repeat=cn)]
     jobs += [('cls', c) for c in chunks(cls_items, 300)]
     for impl in ('c', 'py'):
-        for mode in ('default', 'strict', 'legacy'):
+        for mode in ('default', 'strict', 'legacy', 'log'):
             if mode != 'default' and impl == 'py' and quick:
                 continue
-            js = jobs if mode != 'strict' else [j for j in jobs if j[0] != 'cls']
+            if mode == 'log' and quick:
+                jobs_mode = [j for j in jobs if j[0] == 'dag']
+            else:
+                jobs_mode = jobs
+            js = jobs_mode if mode != 'strict' else [j for j in jobs_mode if j[0] != 'cls']
             res = ctx.map(impl, 'evaluate', js, extra_env=ENVS[mode])
             tot = 0
             for r in res:
